@@ -507,6 +507,35 @@ func (c *Ctx) checkM3ClientSend(rule string) {
 		}
 	}
 	c.check(ok, rule, key, fn.Pos(), "message begin (emitMetricBatchV2, one-way, next sequence id) -> argument struct with the batch -> message end -> flush", why)
+	// the public method sends exactly once and returns the send's error
+	if pub := c.fn("m3/thrift/v2", "M3Client", "EmitMetricBatchV2"); pub != nil {
+		isSend := func(i ssa.Instruction) bool {
+			call, isCall := i.(*ssa.Call)
+			return isCall && staticCallee(call) == fn
+		}
+		cnt := c.newPathCounter(isSend, 0).fn(pub, 0)
+		sends := findInstrs(pub, isSend)
+		okP := len(sends) == 1 && cnt.min == 1 && cnt.max == 1
+		if okP {
+			sc := sends[0].(*ssa.Call)
+			okP = canon(sc.Call.Args[1]) == ssa.Value(pub.Params[1])
+			for _, r := range returnsOf(pub) {
+				for _, va := range resultValues(r, 0) {
+					if canon(va.Val) != ssa.Value(sc) && !(isNilConst(va.Val) && guardedByEdge(va.At, func(cond ssa.Value) (bool, bool) {
+						o, x, y, okc := cmpOf(cond)
+						if !okc || canon(x) != ssa.Value(sc) || !isNilConst(y) {
+							return false, false
+						}
+						return true, o == token.EQL
+					}) != nil) {
+						okP = false
+					}
+				}
+			}
+		}
+		c.check(okP, rule, c.fnKey(pub), pub.Pos(), "EmitMetricBatchV2 sends its batch exactly once and returns the send's error",
+			"EmitMetricBatchV2 does not send its batch exactly once and return the send's error (a batch is dropped, sent twice, or a write error is hidden from the reporter's error counter)")
+	}
 }
 
 func (c *Ctx) checkCalcTransport(rule string) {
